@@ -407,7 +407,9 @@ fn main() {
         };
         let contents: Vec<Vec<u8>> = vec![b"hello hello hello hello".to_vec(), (0..3000u32).map(|i| (i % 7) as u8).collect(), b"".to_vec(), b"world".to_vec()];
         let out = jbk::Utf8PathBuf::from(p);
-        make_simple(&out, jbk::creator::ConcatMode::OneFile, comp, &contents, || jbk::creator::CompHint::Yes);
+        let mode = match std::env::args().nth(4).as_deref() { Some("two") => jbk::creator::ConcatMode::TwoFiles, Some("no") => jbk::creator::ConcatMode::NoConcat, _ => jbk::creator::ConcatMode::OneFile };
+        let contents = if std::env::args().nth(5).is_some() { vec![b"OLD OLD OLD".to_vec()] } else { contents };
+        make_simple(&out, mode, comp, &contents, || jbk::creator::CompHint::Yes);
         return;
     }
     let tmp = tempfile::tempdir().unwrap();
